@@ -61,6 +61,7 @@ type Exec struct {
 	interestSeen map[int]bool
 	interestSorts map[int]map[string]bool
 	ninst     int
+	skNest    int
 }
 
 type InputSym struct {
@@ -106,6 +107,12 @@ func (x *Exec) oblige(st *State, kind string, goal *Term, pos token.Pos, note st
 	name := x.oblName(kind)
 	orig := goal
 	goal = x.skolemize(st, goal, 0)
+	if goal != orig {
+		// the element reads of the skolemised goal are ground now: link them to the arrays and type them
+		x.linkAtTerms(goal)
+		x.typeReadsIn(st, goal)
+		x.interestFromGoal(st, goal)
+	}
 	posStr := posOf(x.prog.fset, pos)
 	// inlined callees: report the chain of call sites, outermost first
 	if len(x.siteStack) > 0 {
@@ -393,7 +400,9 @@ func (x *Exec) readElem(st *State, elemT types.Type, sl, idx *Term) *Term {
 		x.assumeTypeB(st, v, elemT, node.readBound(slRef(sl), x.job.alloc0))
 	}
 	if !hasFreeBound(idx) {
-		x.addInterest(st, idx, arrKey(arr))
+		for _, k := range arrKeys(arr) {
+			x.addInterest(st, idx, k)
+		}
 	} else {
 		x.assumeType(st, v, elemT)
 	}
